@@ -245,6 +245,7 @@ impl<'a> Gen<'a> {
         let s = self.split(size.max(xs.len() + 1) - 1, xs.len());
         let mut clauses = Vec::new();
         self.feat("new");
+        self.inst_stack.push(ty.clone());
         for (i, x) in xs.iter().enumerate() {
             let mut ccx = self.closure_cx(cx);
             let mut binders: Vec<String> = Vec::new();
@@ -262,6 +263,7 @@ impl<'a> Gen<'a> {
             } else { let b = self.term(&ccx, &ret, s[i]); self.wrap_for_checker(&ccx, &ret, b) };
             clauses.push(Clause { xtor: x.name.clone(), binders, body });
         }
+        self.inst_stack.pop();
         Tm::New(clauses)
     }
 
@@ -289,6 +291,7 @@ impl<'a> Gen<'a> {
         let saved = std::mem::replace(&mut self.st, st);
         let cx = self.top_cx(idx);
         let mut clauses = Vec::new();
+        let saved_stack = std::mem::replace(&mut self.inst_stack, vec![ty.clone()]);
         for x in self.xtors(ty) {
             let mut ccx = self.closure_cx(&cx);
             let mut binders: Vec<String> = Vec::new();
@@ -305,6 +308,7 @@ impl<'a> Gen<'a> {
             clauses.push(Clause { xtor: x.name.clone(), binders, body });
         }
         self.st = saved;
+        self.inst_stack = saved_stack;
         self.defs[idx].body = Some(Tm::New(clauses));
         idx
     }
@@ -401,7 +405,7 @@ impl<'a> Gen<'a> {
 
 pub fn gen_program(rng: &mut Rng, cfg: &FunGenCfg) -> GenProg {
     let mut g = Gen { rng, cfg, decls: vec![], pool: vec![], defs: vec![], st: DefSt { idx: 0, used: HashSet::new(), cost: 0, budget: 0, rec_left: 0, ctr: 0 },
-        feats: BTreeSet::new(), helpers: HashMap::new(), def_names: HashSet::new(), many_live_def: None };
+        feats: BTreeSet::new(), helpers: HashMap::new(), def_names: HashSet::new(), many_live_def: None, inst_stack: Vec::new() };
     g.gen_type_decls();
     g.build_pool();
     g.gen_signatures();
